@@ -89,6 +89,10 @@ def execute(prop, scenario, params, streams=None):
             stats["pads"] += sum(len(p) for p in mt.pads.values())
             check = getattr(oracles, "check_" + prop.lower())
             check(mt, sess)
+            for dv in mt.deferred:
+                stats["probe.units_reordered_by_layout"] += 1
+                if dv.prop == prop:
+                    raise dv
             interleavings.append(core.digest(sess.steps))
         verdict = core.result_ok(dict(stats))
     except core.Violation as v:
@@ -322,3 +326,33 @@ def _relayout(mod):
             addr += sum(gen._block_size(mod["isa"], b) for b in u["blocks"])
         gen._fix_alignment(mod["isa"], sec["units"])
         addr = (addr + 0xFFF) & ~0xFFF
+
+
+def debug_dump(prop, scenario, params):
+    """Text dump of the real module and the model before/after each
+    session (triage only)."""
+    from . import build, debug, driver, observe, oracles
+
+    out = []
+    sigma = scenario["sigma"]
+    core.reseed(sigma["uuid_seed"], sigma["salt"])
+    world, model = build.build(scenario["module"])
+    out.append(debug.dump_real(world))
+    for si, s in enumerate(scenario["sessions"]):
+        out.append(str([_op_str(o) for o in s["ops"]]))
+        sess = driver.run_session(world, model, s, prop, si)
+        out.append(f"error {sess.error!r}")
+        if sess.error is not None:
+            break
+        driver.apply_to_model(sess)
+        model.end_session()
+        out.append(f"--- after session {si}")
+        out.append(debug.dump_real(world))
+        out.append(debug.dump_model(model))
+        try:
+            obs = observe.Obs(world, model)
+            oracles.align_model(world, model, obs, prop)
+        except Exception as e:
+            out.append(f"align: {e!r}")
+            break
+    return "\n".join(out)
